@@ -401,9 +401,9 @@ func init() {
 			"distinct = distinct (directive, value, n, backend); non-trivial = value needs encoding or is longer than n",
 		N: func(tier string) int {
 			if tier == "thorough" {
-				return len(gen.HostileStrings())*len(c16Dirs)*4 + 300000
+				return len(gen.HostileStrings())*len(c16Dirs)*4 + 4000000
 			}
-			return len(gen.HostileStrings())*len(c16Dirs) + 15000
+			return len(gen.HostileStrings())*len(c16Dirs) + 150000
 		},
 		Setup: func(tier string, seed uint64, config string) string {
 			c16Init()
